@@ -124,3 +124,17 @@ Print Assumptions C12_fg_wf_decidable.
 (* satisfiable, on the row order in which the unrepaired builder failed *)
 Theorem C12_fg_hypotheses_satisfiable : fg_wf fg_demo /\ fg_id fg_demo = [1; 1; 1; 1; 2; 3; 3; 4].
 Proof. exact fg_demo_ok. Qed.
+
+(* units nest, for tables of any size: family units lie within households, partner units within family units
+   (needs units within family units: C12_bg_within_fg above) *)
+Theorem C12_fg_within_hh : forall all, fg_wf all ->
+  forall i j a b, nth_error all i = Some a -> nth_error all j = Some b ->
+    nth_error (fg_id all) i = nth_error (fg_id all) j -> hh a = hh b.
+Proof. exact fg_within_hh. Qed.
+Print Assumptions C12_fg_within_hh.
+
+Theorem C12_eg_within_fg : forall all, fg_wf all -> couple_wf einst all ->
+  forall i j a b, nth_error all i = Some a -> nth_error all j = Some b ->
+    nth_error (eg_id all) i = nth_error (eg_id all) j -> nth_error (fg_id all) i = nth_error (fg_id all) j.
+Proof. exact eg_within_fg. Qed.
+Print Assumptions C12_eg_within_fg.
